@@ -6,6 +6,7 @@ G: every case of a complete small exact domain is emitted with the expected Term
    (Term.tla); the Terms are evaluated by the trusted evaluator harness/term.py and compared with
    kneeliverse.metrics.* (float64, int64 and mixed arrays) and kneeliverse.linear_fit.*."""
 import threading
+import time
 
 import numpy as np
 
@@ -269,18 +270,29 @@ def _nontrivial(b):
 
 
 def _warm():
-    """Compile the numba signatures once, before the worker processes are forked (runs while TLC runs)."""
+    """Compile the numba signatures once, before the worker processes are forked (runs while TLC runs).
+    Mirrors the calls of _check_metrics / _check_line: dtypes, contiguous and column-view layouts, coefficient types."""
     try:
-        M, _ = _libs()
+        M, lf = _libs()
+        fns = ERR + ("r2", "r2adj")
         yi, hi = np.array([1, 2, 4], dtype=np.int64), np.array([1, 3, 3], dtype=np.int64)
-        yf, hf = yi.astype(float), hi.astype(float)
+        yf, hf = yi.astype(float), hi.astype(float) + 0.5
         for ya, ha in ((yf, hf), (yi, hi), (yi, hf)):
-            for fn in ERR:
-                getattr(M, fn)(ya, ha)
-            M.smape(ya, ha, 1e-16)
-            M.rpd(ya, ha, 1e-16)
-            M.r2(ya, ha)
-            M.r2(ya, ha, M.R2.adjusted)
+            for fn in fns:
+                for _, call in _metric_call(M, fn):
+                    call(ya, ha)
+                    call(ha, ya)
+        for x, y in ((yf, hf - 0.5), (yi, hi)):
+            pts = np.column_stack([x, y])
+            for coef in ((0.5, 1.0), (1, 2)):
+                for fn in fns:
+                    for _, f, g in _wrapper_call(M, lf, fn):
+                        f(x, y, coef)
+                        g(pts, coef)
+            lf.linear_fit_residuals(x, y)
+            lf.linear_fit_residuals_points(pts)
+            lf.linear_hv_residuals(x, y)
+            lf.linear_hv_residuals_points(pts)
     except Exception:
         pass            # a tree on which this raises is judged by the replay, case by case
 
@@ -303,6 +315,7 @@ def run(ctx):
         "laws with eps are checked inside TLC with the stand-ins eps in {1, 1/4} (they hold for every eps > 0; "
         "10^-16 does not fit TLC's 32-bit integers); Rmsle is not rational and has no TLC-side law",
     ]
+    t0 = time.time()
     warm = threading.Thread(target=_warm)
     warm.start()
     cfg = "Gen_Metrics_quick" if ctx.quick else "Gen_Metrics_thorough"
@@ -310,11 +323,13 @@ def run(ctx):
         beh = ctx.gen("Gen_Metrics", cfg, workers=16, timeout=1500)
     finally:
         warm.join()
+    t1 = time.time()
     beh.sort(key=lambda b: repr(_key(b)))
     ctx.exhaustive = True
     size = max(1, min(100, len(beh) // 64))
     chunks = [beh[i:i + size] for i in range(0, len(beh), size)]
     res = [r for rs in par.pmap(_check_many, chunks) for r in rs]
+    ctx.extra["timing_s"] = {"generate_and_laws": round(t1 - t0, 1), "replay": round(time.time() - t1, 1)}
     seen = set()
     kinds = {}
     for b, bad in zip(beh, res):
